@@ -44,7 +44,9 @@ func runC19(c *Ctx) {
 		listens := false
 		eachCall(ss, func(call ssa.CallInstruction) {
 			if sf := staticFn(call); sf != nil {
-				if reachesInstr(sf, func(x ssa.Instruction) bool { return isCallTo(x, "net/http.Server.ListenAndServe", "net/http.Server.Serve") }, 0, map[*ssa.Function]bool{}) {
+				if reachesInstr(sf, func(x ssa.Instruction) bool {
+					return isCallTo(x, "net/http.Server.ListenAndServe", "net/http.Server.Serve")
+				}, 0, map[*ssa.Function]bool{}) {
 					listens = true
 				}
 			}
